@@ -539,6 +539,20 @@ def _check_est(case, ctx):
         Y = Y + Hu_full[:, ::m] * ru[np.newaxis, :]
         scale += float(np.linalg.norm(Hu_full))
 
+    # the root sequence object was shared by all users built above: it must
+    # still have unit amplitude, and every user sequence the documented
+    # amplitude (1, or 1/sqrt(N) when normalised)
+    root_amp = np.abs(np.asarray(root_seq.seq_array()))
+    ctx.close("root_amplitude_after_users",
+              float(np.max(np.abs(root_amp - 1.0))), 1e-12,
+              "the root sequence no longer has unit amplitude after user "
+              "sequences were derived from it (amplitudes %.6g .. %.6g)" %
+              (float(root_amp.min()), float(root_amp.max())), tags)
+    want_amp = 1.0 / math.sqrt(N) if case["normalize"] else 1.0
+    ctx.close("user_amplitude", float(np.max(np.abs(np.abs(r0) - want_amp))),
+              1e-12, "user sequence amplitude %.6g, documented %.6g" %
+              (float(np.abs(r0).max()), want_amp), tags)
+
     with _tagged(tags):
         ref = r0 if case["as_array"] else useq
         if mult is None:
